@@ -8,7 +8,7 @@ import panics
 from astlib import find_all, show, callee_path, find_first
 
 EXPLANATION = (
-    "Static structural analysis (MIR dominance/must-pass-through + syntax facts), nothing executed. Decided clauses: "
+    "Primary clause (R0): ConfigFile::new, the serde visitor and the file probing are interpreted abstractly (rules/absint.py; nothing compiled or run; toml and the file system are modelled) over small configurations and layouts and compared with the statement. The structural clauses R1 / R2 are used only when the code leaves the interpreter's fragment. Static structural analysis (MIR dominance/must-pass-through + syntax facts), nothing executed. Decided clauses: "
     "(R1) in ConfigFile::new every path to Ok(cfg) passes the default-first step (swap(0, position) or push + swap(0, len) "
     "on cfg.locales) and both duplicate checks, whose Some-branches build DuplicateLocalesInConfig / "
     "DuplicateNamespacesInConfig and cannot reach Ok; in CfgFileVisitor::visit_map Ok(ConfigFile) is dominated by the "
@@ -691,7 +691,7 @@ def run(ctx):
 
 
 MANIFEST_ENTRY = {
-    "technique": "static analysis: MIR dominance / must-pass-through with branch polarity on validation calls, loop push/pop balance, syn table extraction",
-    "level_text": "Structural: every success return of the configuration loader is shown (on the CFG, for all inputs) to be dominated by each documented validation with the error on the right branch, and the path arithmetic is shown balanced. It does not run toml or open files.",
+    "technique": "static analysis: abstract evaluation (rules/absint.py) of ConfigFile::new, CfgFileVisitor::visit_map, FieldVisitor::visit_str and LocalesOrNamespaces::new / Namespace::new / find_file over small configurations and a modelled file system, oracle from the statement; MIR who-constructs check for every configuration error; MIR dominance / push-pop rules as fallback",
+    "level_text": "Finite abstract evaluation: all (locales, namespaces) lists of the universe, 17 field sequences and 12 directory layouts are interpreted; default-first normalisation, every documented rejection, ignored fields / manifest text and the exact files probed are compared with the statement. toml and the file system are modelled, not run.",
     "level_note": "Trusted: toml/serde drive the visitor as documented. Not decided: the files opened for a concrete layout.",
 }
